@@ -537,7 +537,8 @@ pub fn run_c17(ctx: &mut Ctx) {
     let mut r = ctx.rng(17);
     let (level, budget, shard, nshards) = (ctx.level, ctx.budget, ctx.shard, ctx.nshards);
     let rep = &mut ctx.rep;
-    rep.exhaustive = true;
+    rep.exhaustive = false;
+    rep.note("enumerated completely: all strings up to the stated length over the two structural alphabets; longer strings are sampled");
     let maxlen = match level {
         0 => 3,
         1 => 6,
